@@ -204,7 +204,7 @@ def gen_c20(rng, join=False):
         if rng.random() < 0.5:
             sc["threads"].append([["pop"]])
         return sc
-    kind = rng.choice(["idle", "idle", "full", "full", "mixed"])
+    kind = rng.choice(["idle", "idle", "full", "full", "mixed", "timed", "timed"])
     silent = rng.random() < 0.4
     sc = {"max": 1, "threads": [], "fire": [], "ntills": 0, "prefill": [], "allow": False, "close_at_end": False,
           "silent": silent, "nstall": 0 if silent else rng.choice([0, 1, 2, 3]), "c20": True}
@@ -215,6 +215,16 @@ def gen_c20(rng, join=False):
         sc["prefill"] = [100]
         for i in range(rng.randint(1, 2)):
             sc["threads"].append([["add", i + 1]])
+    elif kind == "timed":
+        # ONE thread parked with a time limit that runs out while nothing else happens: it leaves (raises / returns None), it does
+        # not stay and go round its loop on a till that has fired
+        sc["ntills"] = 1
+        sc["fire"] = [0]
+        if rng.random() < 0.6:
+            sc["prefill"] = [100]
+            sc["threads"].append([["add_till", 1, 0]])
+        else:
+            sc["threads"].append([["pop_till", 0]])
     else:
         sc["prefill"] = [100]
         sc["threads"].append([["add", 1]])
@@ -291,6 +301,8 @@ def run_scenario(sc, chooser=None, seed=0, max_steps=6000):
                 if st["fired_parks"][key] == 2:
                     st["viol"].append("C08: producer %s parks again although the till of its add() fired before its previous "
                                       "wake-up: the timeout is not looked at" % me.name[1:])
+                    st["viol"].append("C20: producer %s keeps going round its wait loop on a till that has already fired (every wait "
+                                      "returns at once) instead of leaving" % me.name[1:])
             sched.note("park", me.name[1:])
             st["in_wait"].add(me)
             if till is not None and any(till is x for _, x in st["stalls"]):
@@ -415,6 +427,10 @@ def run_scenario(sc, chooser=None, seed=0, max_steps=6000):
                         r = "error:" + msg[:60]
                 if sched.abort:
                     return
+                if kind in ("pop", "pop_till", "pop_one") and r is STOP and not bool(ds.raw(q.closed, "_go")):
+                    st["viol"].append("C07: %s() returned the stop marker on thread %d although the queue has not been closed (a wake-up that "
+                                      "brought no value is not the end of the queue)" % (kind, ti))
+                    st["viol"].append("C09: %s() returned the stop marker on thread %d although the queue has not been closed" % (kind, ti))
                 rs = fmt_result(r)
                 sched.note("ret", ti, kind_name(kind), rs)
                 h["ret"] = len(sched.events)
